@@ -110,7 +110,7 @@ def run(ck, w):
     bad = []
     for s in sites:
         if s.fate in ("swallowed", "logged"):
-            if (s.body.root, s.callee_short(), s.detail) in ERR_ALLOWED or (s.body.root, s.callee_short(), None) in ERR_ALLOWED:
+            if (s.body.root, s.callee_short(), s.detail) in ERR_ALLOWED or (s.body.root, s.callee_short(), None) in ERR_ALLOWED or errscope.allowed_kind_conversion(s):
                 continue
             bad.append(s)
     if bad:
